@@ -2,6 +2,7 @@ import Upf.Proofs.Notif
 import Upf.Proofs.Pending
 import Upf.Gen.Handlers
 import Upf.Gen.Consts
+import Upf.Gen.Retry
 /-!
 # C12 — Association, heartbeat and retransmission contract
 
@@ -48,5 +49,30 @@ theorem late_or_duplicate_harmless (es : List Pending.Ev) (e : Pending.Ev) :
 -- non-vacuity: N = 2; answered at the third transmission; never answered
 example : send 7 2 [.timeout, .resp 6, .timeout, .resp 7, .timeout] = (3, .answered) := by decide
 example : send 7 2 [.timeout, .timeout, .timeout] = (3, .dead) := by decide
+
+/-! ### the loop at the width the code gives it
+
+`Gen.Retry` is regenerated from messages.go / upf.go on every run: the statements of `sendPFCPRequestMessage` (log calls dropped)
+and the type of `upf.maxReqRetries`. `Retry.goU8` transcribes exactly these statements on 8-bit values. -/
+
+/-- T1: the retransmission loop is, statement by statement, the one `Retry.goU8` was written against, and its budget is a `uint8` -/
+theorem retry_loop_is_the_modelled_one :
+    Gen.Retry.body = ["{", "pConn.pendingReqs.Store(r.msg.Sequence(), r)", "pConn.SendPFCPMsg(r.msg)",
+      "retriesLeft := pConn.upf.maxReqRetries", "for {",
+      "if reply, rc := r.GetResponse(pConn.shutdown, pConn.upf.respTimeout); rc {",
+      "if retriesLeft > 0 {", "pConn.SendPFCPMsg(r.msg)", "retriesLeft--", "} else {", "return nil, true", "}",
+      "} else {", "return reply, false", "}", "}", "}"] ∧ Gen.Retry.retriesType = "uint8" := by decide
+
+/-- for EVERY value the configuration can carry (0..255, the largest included) the 8-bit loop is the loop over `Nat` the other
+statements are about: no wrap-around, no comparison that is always true -/
+theorem loop_at_code_width_is_the_model (seq : Nat) (N : BitVec 8) (es : List Ev) : sendU8 seq N es = send seq N.toNat es :=
+  Retry.sendU8_eq seq N es
+
+/-- hence at most 1 + max_req_retries ≤ 256 transmissions of one request, whatever the peer does -/
+theorem tx_bound_at_code_width (seq : Nat) (N : BitVec 8) (es : List Ev) :
+    (sendU8 seq N es).1 ≤ 1 + N.toNat ∧ (sendU8 seq N es).1 ≤ 256 := Retry.tx_bound_u8 seq N es
+
+-- non-vacuity at the boundary: budget 255, a peer that never answers: 256 transmissions, then dead
+example : sendU8 7 255#8 (List.replicate 300 .timeout) = (256, .dead) := by decide +kernel
 
 end Props.C12
